@@ -27,7 +27,14 @@ for fam in php5 php7; do
   sum=$(sha1sum "$y" | cut -d' ' -f1)
   if [ ! -f "$B/$fam.y.output" ] || [ "$(cat "$B/$fam.sum" 2>/dev/null)" != "$sum" ]; then
     mkdir -p "$B/yy-$fam"
-    (cd "$B/yy-$fam" && "$B/goyacc" -l -o "$B/yy-$fam/$fam.go" -v "$B/$fam.y.output" "$y") >"$B/goyacc-$fam.log" 2>&1 || { cat "$B/goyacc-$fam.log" >&2; fail "goyacc failed on $fam.y"; }
+    rm -f "$B/$fam.note"
+    if ! (cd "$B/yy-$fam" && "$B/goyacc" -l -o "$B/yy-$fam/$fam.go" -v "$B/$fam.y.output" "$y") >"$B/goyacc-$fam.log" 2>&1; then
+      # the working-tree grammar is not something goyacc accepts (a hand-edited .y next to a hand-edited .go): the automaton
+      # that generates the sentences is taken from the last committed grammar; every verdict still comes from the compiled parser
+      git -C "$REPO" show "HEAD:internal/$fam/$fam.y" >"$B/yy-$fam/head.y" 2>/dev/null || { cat "$B/goyacc-$fam.log" >&2; fail "goyacc failed on $fam.y"; }
+      (cd "$B/yy-$fam" && "$B/goyacc" -l -o "$B/yy-$fam/$fam.go" -v "$B/$fam.y.output" "$B/yy-$fam/head.y") >>"$B/goyacc-$fam.log" 2>&1 || { cat "$B/goyacc-$fam.log" >&2; fail "goyacc failed on $fam.y and on the committed $fam.y"; }
+      echo "goyacc rejects the working-tree internal/$fam/$fam.y ($(head -1 "$B/goyacc-$fam.log")); sentences are generated from the automaton of the committed grammar" >"$B/$fam.note"
+    fi
     echo "$sum" >"$B/$fam.sum"
   fi
 done
